@@ -36,9 +36,9 @@ CLAIMED["C08"] = dict(
 
 TB = "Trusted: Coq kernel + vm_compute (no axioms: every theorem is 'Closed under the global context'), the Python harness that drives the real classes and renders what they did as Gallina literals, "
 CLAIMED["C03"] = dict(
-    text="Coq theorems, for every wiring / answer order / history: route() reaches exactly the wired input ports (C03_route_exact, C03_route_nothing_else); within a tick the changes handed to a component are exactly what its upstreams answered earlier in that tick, whatever the interleaving (C03_within_tick); a device component's cumulative inputs hold per port the latest value ever received (C03_cumulative_latest). Whole simulations (flat and nested to depth 3, multi-tick, callbacks and interrupts) of the real schedulers/components are compared inside Coq with Model/Sim.v, and a Coq-defined oracle (latest_ok, code 81) decides on every observed update that the inputs equal the latest reported value of the resolved upstream device output along the flattened wiring - through external/exposed ports in both directions.",
-    note=TB + "the virtual-time event loop. PARTIAL: the composition of the three layers through system-simulation boundaries is not a theorem; it is decided per run by the oracle. Values are integers.",
-    technique="Coq proof (route/ticker/component layers) + whole-simulation correspondence + Coq oracle on observed runs",
+    text="Coq theorems, for every wiring / answer order / history: route() reaches exactly the wired input ports (C03_route_exact, C03_route_nothing_else); within a tick the changes handed to a component are exactly what its upstreams answered earlier in that tick, whatever the interleaving (C03_within_tick); a device component's cumulative inputs hold per port the latest value ever received (C03_cumulative_latest); and composed on the whole-simulation model for flat simulations: along any multi-tick history with callbacks and interrupts at any speed, in every state the master reaches each wired input port holds the value its source reported last, and every update is handed exactly those inputs - including values produced earlier in the same tick (C03_sim_update_latest, C03_sim_run_latest, by a mid-tick invariant over the topological order). Whole simulations (flat and nested to depth 3) of the real schedulers/components are compared inside Coq with Model/Sim.v, and a Coq-defined oracle (latest_ok, code 81) decides on every observed update that the inputs equal the latest reported value of the resolved upstream device output along the flattened wiring - through external/exposed ports in both directions.",
+    note=TB + "the virtual-time event loop. PARTIAL: the composition through system-simulation boundaries is not a theorem; it is decided per run by the oracle. Values are integers; device reports have unique port names (Python dicts).",
+    technique="Coq proof (route/ticker/component layers + whole-simulation invariant) + whole-simulation correspondence + Coq oracle on observed runs",
     ref="5/C03")
 CLAIMED["C04"] = dict(
     text="Coq theorems over Model/Master.v (a step machine of MasterScheduler: phases, pending answers, wakeups, anchor of the real-time/simulation-time mapping) for EVERY event history (answers in any order, interrupts in any phase, wake-ups, exceptions): a tick starts only when no tick is running, every dispatch of a tick carries that tick's single time, a tick ends exactly when its last participant answered (C04_serial_one_time, C04_tick_ends_when_all_answered) and tick times never decrease (C04_monotone). The machine is tied to the real MasterScheduler by driving it message by message with answers in flight and comparing every output with the model inside Coq; nested: every inner tick of a whole simulation lies inside the outer tick that triggered it at the same time.",
@@ -66,7 +66,7 @@ CLAIMED["C09"] = dict(
     technique="Coq proof (flattening) + paired whole-simulation runs compared in Coq",
     ref="5/C09")
 CLAIMED["C10"] = dict(
-    text="Coq theorems: topics of different components never coincide and no input topic is an output topic, over constants re-extracted from the source each run (C10_topics_disjoint); a device update touches only that device's state and a component outside a tick's extent is untouched (C10_update_frame, C10_outside_extent_untouched); one whole tick of a flat level and of the level extended by a disconnected part X of any behaviour, placed anywhere, roots or not, gives every old device the same observation and state (C10_tick_noninterference); whole runs from start-up in simulation time - X may have its own callbacks, causing extra and merged ticks - give every base device exactly the same observation sequence, by a stuttering simulation proved for every configuration and device behaviour (C10_run_noninterference; Model/SimTime.v is compared with the real-time master model on every applicable generated case, code 55). For nested configurations, interrupts, pacing and adapters non-interference is decided per pair of runs of the real classes: configuration vs configuration + disconnected devices/system simulations (91), probe adapters notified exactly once per own update, the shipped EpicsAdapter/CommandAdapter driven without network; topic collisions are also searched directly on the real topic functions.",
+    text="Coq theorems: topics of different components never coincide and no input topic is an output topic, over constants re-extracted from the source each run (C10_topics_disjoint); a device update touches only that device's state and a component outside a tick's extent is untouched (C10_update_frame, C10_outside_extent_untouched); one whole tick of a flat level and of the level extended by a disconnected part X of any behaviour, placed anywhere, roots or not, gives every old device the same observation and state (C10_tick_noninterference); whole runs from start-up in simulation time - X may have its own callbacks, causing extra and merged ticks - give every base device exactly the same observation sequence, by a stuttering simulation proved for every configuration and device behaviour (C10_run_noninterference), transferred to the real-time master model at speed 1 (C10_master_noninterference: Model/SimTime.v is proved equal to it there and compared with it on every applicable generated case, code 55). For nested configurations, interrupts, pacing and adapters non-interference is decided per pair of runs of the real classes: configuration vs configuration + disconnected devices/system simulations (91), probe adapters notified exactly once per own update, the shipped EpicsAdapter/CommandAdapter driven without network; topic collisions are also searched directly on the real topic functions.",
     note=TB + "the virtual-time event loop, a stub for softioc's builder. PARTIAL: the run-level theorem covers flat simulations without interrupts in simulation time; the rest is pairwise-tested. Integer speeds only in the pairs (rounding of the real-time deadline may differ by 1 ns otherwise, which is not an observation of any device).",
     technique="Coq proof (topic injectivity, frame lemmas, tick-level relation, stuttering simulation over whole runs) + paired whole-simulation runs compared in Coq + adapter-level differential runs",
     ref="5/C10")
